@@ -9,11 +9,11 @@ import sys, os
 sys.path.insert(0, os.path.join(os.getcwd(), "tools"))
 from svlib import *
 import gentables
+build_harness()
 gentables.regenerate()
 ok, out = coq_make([])
 if not ok:
     print(out[-5000:]); sys.exit(1)
 build_driver()
-build_harness()
 print("setup ok")
 PY
